@@ -296,7 +296,7 @@ EXPANSION_ROUTES = {
     ('glob', 'Glob.__init__'): ('self._parse_patterns',),
     ('pathlib', 'PurePath.match'): ('self.globmatch',), ('pathlib', 'PurePath.globmatch'): ('glob.globmatch',), ('pathlib', 'PurePath.full_match'): ('glob.globmatch',),
     ('pathlib', 'Path.glob'): ('glob.iglob',), ('pathlib', 'Path.rglob'): ('self.glob',),
-    ('wcmatch', 'WcMatch.__init__'): ('self._compile',), ('wcmatch', 'WcMatch._compile_wildcard'): ('_wcparse.compile',),
+    ('wcmatch', 'WcMatch.__init__'): ('self._compile',),
 }
 
 
